@@ -18,8 +18,8 @@ fn space(tier: Tier) -> &'static Space {
     static Q: OnceLock<Space> = OnceLock::new();
     static T: OnceLock<Space> = OnceLock::new();
     match tier {
-        Tier::Quick => Q.get_or_init(|| Space::new(&[("FS", 1), ("FC", 2), ("FA", 2), ("FT", 1)])),
-        Tier::Thorough => T.get_or_init(|| Space::new(&[("FS", 2), ("FC", 3), ("FA", 3), ("FT", 2)])),
+        Tier::Quick => Q.get_or_init(|| Space::new(&[("FS", 1), ("FC", 2), ("FA", 2), ("FT", 1), ("FB", 2)])),
+        Tier::Thorough => T.get_or_init(|| Space::new(&[("FS", 2), ("FC", 3), ("FA", 3), ("FT", 2), ("FB", 3)])),
     }
 }
 fn samples(tier: Tier) -> usize {
@@ -56,12 +56,12 @@ fn build(tier: Tier, idx: u64) -> Option<(String, Vec<String>, Value, &'static s
     let (base, m) = (idx / MUT_MAX, idx % MUT_MAX);
     let (_, g) = space(tier).get(base);
     let g = g?;
-    if g.ft.is_some() {
+    if g.ft.is_some() || g.text.is_some() {
         if m != 0 {
             return None;
         }
         let src = g.source();
-        return Some((src.clone(), g.tags(), gen_repr(&g, &src), g.family, true, 0));
+        return Some((src.clone(), g.tags(), gen_repr(&g, &src), g.family, g.ft.is_some(), if g.ft.is_some() { 0 } else { g.inputs }));
     }
     if m != 0 && g.tags().iter().any(|t| t == "local_letrec") {
         // no near-miss mutants of programs with a recursive local function: a mutated loop bound or step makes the
